@@ -236,9 +236,39 @@ func (ex *Exec) execInstr(b *ssa.BasicBlock, st *State, in ssa.Instruction) {
 			}
 		}
 		ex.tuples[in] = tup
+		if !in.Blocking && ex.con != nil && ex.con.ChanEvents {
+			// a non-blocking select that falls to `default` has observed its data channels empty (or full for sends)
+			hasDataRecv := false
+			for _, s := range in.States {
+				if s.Dir == types.RecvOnly && chanClass(s.Chan) == "recvs" {
+					hasDataRecv = true
+				}
+			}
+			if hasDataRecv {
+				name := "G_ghost.drained"
+				cur := ex.heapGet(st, name, SInt)
+				nv := Ite(Eq(idx, IntLit(-1)), IntLit(1), cur)
+				for k, s := range in.States {
+					if s.Dir == types.RecvOnly && chanClass(s.Chan) == "recvs" {
+						nv = Ite(Eq(idx, IntLit(int64(k))), IntLit(0), nv)
+					}
+				}
+				ex.heapSet(st, name, ex.define(name, nv))
+				ex.heapWrites[name] = true
+			}
+		}
+		for k, s := range in.States {
+			chosen := Eq(idx, IntLit(int64(k)))
+			if s.Dir == types.SendOnly {
+				ex.chanEvent(st, "sends", chosen)
+			} else {
+				ex.chanEvent(st, chanClass(s.Chan), chosen)
+			}
+		}
 		vc.note("select abstracted to non-deterministic choice")
 	case *ssa.Send:
 		vc.note("channel send abstracted (no effect on modelled state)")
+		ex.chanEvent(st, "sends", TTrue)
 	case *ssa.SliceToArrayPointer, *ssa.MultiConvert:
 		ex.regs[in.(ssa.Value)] = vc.fresh("conv", vc.sortOf(in.(ssa.Value).Type()))
 		vc.note("conversion %T abstracted", in)
@@ -291,6 +321,7 @@ func (ex *Exec) execUnOp(st *State, in *ssa.UnOp) {
 			ex.regs[in] = r
 		}
 		vc.note("channel receive abstracted to havoc")
+		ex.chanEvent(st, chanClass(in.X), TTrue)
 	case token.XOR:
 		ex.regs[in] = vc.fresh("xor", vc.sortOf(in.Type()))
 		vc.note("bitwise complement abstracted")
@@ -791,4 +822,53 @@ func (ex *Exec) ownershipCheck(st *State, v ssa.Value, dst string, dstAddr ssa.V
 	owner := src.X.Type().Underlying().(*types.Pointer).Elem()
 	name := fieldHeapName(owner, src.Field)
 	ex.vc.oblige("own", fmt.Sprintf("own:%s:%d", ex.conName(), ex.nown), st.guard, TFalse, ex.pos(token.NoPos)).SetNote("a re-slice of " + name + " is stored into " + dst + ": two owners would share one backing array (slices are modelled as values)")
+}
+
+// chanClass classifies a receive by the field the channel was read from: done channels, timer channels, data.
+func chanClass(ch ssa.Value) string {
+	name := ""
+	switch x := ch.(type) {
+	case *ssa.UnOp:
+		if fa, ok := x.X.(*ssa.FieldAddr); ok {
+			if st, ok := fa.X.Type().Underlying().(*types.Pointer).Elem().Underlying().(*types.Struct); ok {
+				name = st.Field(fa.Field).Name()
+			}
+		}
+	case *ssa.Call:
+		if f := x.Call.StaticCallee(); f != nil {
+			name = f.Name()
+		} else if x.Call.IsInvoke() {
+			name = x.Call.Method.Name()
+		}
+	}
+	switch name {
+	case "done", "Done":
+		return "dones"
+	case "After":
+		return "timeouts"
+	case "C":
+		// a timer's channel: name the counter after the local variable holding the timer
+		if u, ok := ch.(*ssa.UnOp); ok {
+			if fa, ok := u.X.(*ssa.FieldAddr); ok {
+				if ld, ok := fa.X.(*ssa.UnOp); ok {
+					if a, ok := ld.X.(*ssa.Alloc); ok && a.Comment != "" {
+						return "timeouts_" + a.Comment
+					}
+				}
+			}
+		}
+		return "timeouts"
+	}
+	return "recvs"
+}
+
+// chanEvent bumps a ghost global when a channel operation takes place (contracts with option channel_events).
+func (ex *Exec) chanEvent(st *State, ghost string, when T) {
+	if ex.con == nil || !ex.con.ChanEvents {
+		return
+	}
+	name := "G_ghost." + ghost
+	cur := ex.heapGet(st, name, SInt)
+	ex.heapSet(st, name, ex.define(name, Ite(when, Add(cur, IntLit(1)), cur)))
+	ex.heapWrites[name] = true
 }
